@@ -14,6 +14,8 @@ function's own symbols):
                solved for the molar volume is THE SAME equation: (V^3 + r1 V^2 + r2 V + r3) P is identically
                P (V - b)(V^2 + 2 b V - b^2) - R T (V^2 + 2 b V - b^2) + a (V - b)   (a polynomial identity between two pieces
                of code, no reference constants involved)
+  C19.cache    the cached alpha(T) of a gas (phase::pr_alpha, valid for phase::pr_tk) is refreshed under a test of that same gas's own cache
+               state; the cache is shared by all calculations of an instance, so a hoisted or borrowed test leaves a stale alpha
   C19.phi      ln phi_i = B_r (z - 1) - ln(z - B) + A/(2 sqrt2 B) (B_r - 2 a_aa_sum2_i / a_aa_sum) ln((z + (1+sqrt2) B)/(z - (sqrt2-1) B)),
                z = P V/(R T), A = a P/(R T)^2, B = b P/(R T), B_r = b_i / b_sum; partial pressure = x_i P; phi = exp(ln phi);
                the SI correction is ln phi / ln 10; the clamp constants are ln 85 and ln 0.01
@@ -132,6 +134,7 @@ def run(P, R, tier):
     for f in fs:
         one_overload(P, R, f, "PR%d:" % len(f["pnames"]))
     kij_rule(P, R)
+    cache_rule(P, R)
     quick_rule(P, R)
 
 
@@ -152,6 +155,58 @@ def quick_rule(P, R):
                     "EQUILIBRIUM_PHASES is held at the raw target SI (phi = 1)" % adj_any[0][1], file=f["file"], line=adj_any[0][1], function=f["q"])
     else:
         R.violation("C19.quick", "quick_setup", "quick_setup no longer re-applies the Peng-Robinson SI correction", file=f["file"], line=f["line"], function=f["q"])
+
+
+def cache_rule(P, R):
+    """"the reported state satisfies the equation of state AT THE REPORTED TEMPERATURE": each gas caches its temperature term alpha(T)
+    (phase::pr_alpha) together with the temperature it was computed for (phase::pr_tk); the cache lives in the phase and is shared by all
+    calculations of the instance.  Every (re)computation of pr_alpha in calc_PR is guarded by a test of the SAME phase's own cache state
+    (its pr_a still unset, or its pr_tk different from TK) - a test hoisted out of the component loop or taken from another component
+    leaves a component with the alpha of an earlier temperature."""
+    RULE = "C19.cache"
+    R.rule(RULE, "calc_PR: every refresh of a gas's cached alpha(T) is guarded by that same gas's own cache state (pr_a unset / pr_tk != TK)", minimum=4)
+    fs = [g for g in P.fns_named("Phreeqc::calc_PR") if g.get("body")]
+    n = 0
+    for f in fs:
+        tag = "PR%d" % len(f["pnames"])
+        # map every assignment of pr_alpha to its innermost enclosing If
+        def visit(node, guards):
+            nonlocal n
+            if not T.is_node(node):
+                return
+            if node[0] == "If":
+                visit(node[3], guards + [node])
+                if T.is_node(node[4]):
+                    visit(node[4], guards)
+                return
+            if node[0] == "Bin" and node[2] == "=" and T.strip_casts(node[3])[0] == "Member" and T.strip_casts(node[3])[2] == "phase::pr_alpha":
+                n += 1
+                base = T.text(T.strip_casts(node[3])[3]).replace(" ", "")
+                inst = "%s:pr_alpha@%d" % (tag, node[1])
+                ok = False
+                if guards:
+                    g = guards[-1]
+                    for y in T.walk(g[2]):
+                        if y[0] == "Member" and y[2] in ("phase::pr_a", "phase::pr_tk") and T.text(y[3]).replace(" ", "") == base:
+                            ok = True
+                if ok:
+                    R.ok(RULE, inst, "guarded by %s's own cache state" % base)
+                else:
+                    R.violation(RULE, inst, "the refresh of %s->pr_alpha is guarded by `%s`, which does not test %s's own cached temperature: a component whose cache is older than the one "
+                                "tested keeps the alpha of an earlier temperature, so P, V and phi no longer satisfy the equation of state at the reported T"
+                                % (base, T.text(guards[-1][2])[:50] if guards else "nothing", base), file=f["file"], line=node[1], function=f["q"])
+                return
+            for c in node[2:]:
+                if isinstance(c, list):
+                    if c and isinstance(c[0], str):
+                        visit(c, guards)
+                    else:
+                        for cc in c:
+                            if isinstance(cc, list) and cc and isinstance(cc[0], str):
+                                visit(cc, guards)
+        visit(f["body"], [])
+    if n < 4:
+        R.anchor_missing(RULE, "only %d assignments of phase::pr_alpha found in the calc_PR overloads (4 confirmed)" % n)
 
 
 def kij_rule(P, R):
